@@ -210,9 +210,17 @@ pub enum Op {
     Merge(Vec<u8>, Vec<(u8, bool)>),
     Multiple(Vec<u8>),
     Text(Vec<u8>, bool),
+    /// remove the child and keep it (with its subtree and its insertion position) on a clipboard
+    Cut(Vec<u8>, u8),
+    /// add a clone of the clipboard element under the element at `path`
+    Paste(Vec<u8>),
 }
 
-const NAMES: &[&str] = &["a", "b", "c", "d"];
+const NAMES: &[&str] = &["a", "b", "type", "d", "ns:e", "F", "text"];
+
+fn bound_name(i: u8) -> &'static str {
+    crate::model::child_bound(NAMES[i as usize])
+}
 const ATTRS: &[&str] = &["x", "y", "z", "w"];
 
 #[derive(Clone, Debug, PartialEq)]
@@ -249,7 +257,7 @@ impl MNode {
         m.children.push((true, MNode::new(3)));
         m
     }
-    pub fn apply(&mut self, op: &Op) {
+    pub fn apply(&mut self, op: &Op, clip: &mut Option<MNode>) {
         match op {
             Op::Add(path, n) | Op::AddMarked(path, n) => {
                 let marked = matches!(op, Op::AddMarked(_, _));
@@ -284,6 +292,20 @@ impl MNode {
             Op::Text(path, on) => {
                 if let Some(p) = self.at(path) {
                     p.text = *on;
+                }
+            }
+            Op::Cut(path, n) => {
+                if let Some(p) = self.at(path) {
+                    if let Some(i) = p.children.iter().position(|(_, c)| c.name == *n) {
+                        *clip = Some(p.children.remove(i).1);
+                    }
+                }
+            }
+            Op::Paste(path) => {
+                if let (Some(c), Some(p)) = (clip.clone(), self.at(path)) {
+                    if !p.children.iter().any(|(_, x)| x.name == c.name) {
+                        p.children.push((true, c));
+                    }
                 }
             }
         }
@@ -323,7 +345,7 @@ fn real_marked<T: Name>(n: u8) -> Element<T> {
 }
 
 /// apply one op to the real tree; returns what `remove_child` handed back, if the op was a removal
-fn real_apply<T: Name>(root: &mut Element<T>, op: &Op) -> Option<Option<Necessity<Element<T>>>> {
+fn real_apply<T: Name>(root: &mut Element<T>, op: &Op, clip: &mut Option<Element<T>>) -> Option<Option<Necessity<Element<T>>>> {
     match op {
         Op::Add(path, n) => {
             if let Some(p) = real_at(root, path) {
@@ -371,6 +393,20 @@ fn real_apply<T: Name>(root: &mut Element<T>, op: &Op) -> Option<Option<Necessit
         Op::Text(path, on) => {
             if let Some(p) = real_at(root, path) {
                 p.text = if *on { Some(T::from_static("t")) } else { None };
+            }
+            None
+        }
+        Op::Cut(path, n) => {
+            if let Some(p) = real_at(root, path) {
+                if let Some(c) = p.remove_child(&T::from_static(NAMES[*n as usize])) {
+                    *clip = Some(c.into_inner_t());
+                }
+            }
+            None
+        }
+        Op::Paste(path) => {
+            if let (Some(c), Some(p)) = (clip.clone(), real_at(root, path)) {
+                p.add_unique_child(c);
             }
             None
         }
@@ -470,7 +506,7 @@ fn render_compare<T: Name>(real: &Element<T>, m: &MNode) -> Option<(String, Stri
             .iter()
             .map(|(mand, c)| {
                 (
-                    NAMES[c.name as usize].to_string(),
+                    bound_name(c.name).to_string(),
                     !*mand,
                     c.multiple,
                     c.text && c.attrs.is_empty() && c.children.is_empty(),
@@ -484,7 +520,7 @@ fn render_compare<T: Name>(real: &Element<T>, m: &MNode) -> Option<(String, Stri
         }
         for ec in &e.children {
             if let Some(sub) = &ec.node {
-                let mc = m.children.iter().find(|(_, c)| NAMES[c.name as usize] == ec.bound).unwrap();
+                let mc = m.children.iter().find(|(_, c)| bound_name(c.name) == ec.bound).unwrap();
                 if let Some(d) = walk(sub, &mc.1, &here) {
                     return Some(d);
                 }
@@ -504,6 +540,8 @@ fn op_kind(op: &Op) -> &'static str {
         Op::Merge(..) => "merge-attr",
         Op::Multiple(..) => "set-multiple",
         Op::Text(..) => "text",
+        Op::Cut(..) => "cut",
+        Op::Paste(..) => "paste",
     }
 }
 
@@ -512,10 +550,12 @@ pub fn run_sequence<T: Name>(ops: &[Op], ty: &str, rep: &mut Report) {
     let case = || json!({"kind": "ops", "ops": ops, "elem": ty});
     let mut model = MNode::new(0);
     let mut real: Element<T> = Element::new(T::from_static(NAMES[0]), vec![]);
+    let mut mclip: Option<MNode> = None;
+    let mut rclip: Option<Element<T>> = None;
     for (step, op) in ops.iter().enumerate() {
         let before = model.clone();
-        model.apply(op);
-        let removed = match guarded(|| real_apply(&mut real, op)) {
+        model.apply(op, &mut mclip);
+        let removed = match guarded(|| real_apply(&mut real, op, &mut rclip)) {
             Ok(r) => r,
             Err(p) => {
                 rep.violation("tree:panic", format!("step {} {:?} panicked: {}", step + 1, op, p), case());
@@ -566,6 +606,9 @@ pub fn run_sequence<T: Name>(ops: &[Op], ty: &str, rep: &mut Report) {
         if matches!(op, Op::Add(..) | Op::AddMarked(..)) && before == model {
             rep.count("adds_of_present_name");
         }
+        if matches!(op, Op::Paste(..)) && mclip.is_some() {
+            rep.count("pastes_of_previously_used_element");
+        }
         if matches!(op, Op::Optional(..)) && before != model {
             rep.count("optional_markings_of_present_child");
         }
@@ -594,6 +637,10 @@ pub fn op_alphabet() -> Vec<Op> {
         Op::Text(vec![], true),
         Op::Text(vec![1], true),
         Op::Text(vec![1], false),
+        Op::Cut(vec![], 1),
+        Op::Cut(vec![], 2),
+        Op::Paste(vec![]),
+        Op::Paste(vec![1]),
     ]
 }
 
@@ -607,6 +654,11 @@ fn random_op(r: &mut Rng, model: &MNode) -> Op {
         cur = c;
     }
     let n = r.below(NAMES.len()) as u8;
+    match r.below(15) {
+        12 | 13 => return Op::Cut(path, n),
+        14 => return Op::Paste(path),
+        _ => {}
+    }
     match r.below(12) {
         0..=2 => Op::Add(path, n),
         3 => Op::AddMarked(path, n),
@@ -656,10 +708,11 @@ pub fn run_c16(thorough: bool, seed: u64, shards: usize) -> (Report, String) {
         for i in 0..(n_random / shards as u64) {
             let len = r.range(5, 40);
             let mut model = MNode::new(0);
+            let mut clip = None;
             let mut ops = Vec::new();
             for _ in 0..len {
                 let op = random_op(&mut r, &model);
-                model.apply(&op);
+                model.apply(&op, &mut clip);
                 ops.push(op);
             }
             if i % 2 == 0 {
@@ -675,7 +728,7 @@ pub fn run_c16(thorough: bool, seed: u64, shards: usize) -> (Report, String) {
         rep
     });
     let rule = format!(
-        "exhaustive: all {}^{} = {} sequences of {} ops over an alphabet of {} public operations (add / add-marked / set-optional / remove at root and nested, merge_attr with tagged lists, set_multiple, text) starting from Element::new(\"a\"), alternating Element<String> and Element<&str>; after EVERY step the tree is compared with an ordered-map model through children()/get_child()/standalone()/text and through its rendering; plus {} random sequences of 5..40 ops over names a-d at depth <= 4. Non-trivial/distinct: distinct final model states.",
+        "exhaustive: all {}^{} = {} sequences of {} ops over an alphabet of {} public operations (add / add-marked / set-optional / remove at root and nested, merge_attr with tagged lists, set_multiple, text, cut = remove and keep, paste = add a previously used element again) on names a, b, type, d, ns:e, F, text starting from Element::new(\"a\"), alternating Element<String> and Element<&str>; after EVERY step the tree is compared with an ordered-map model through children()/get_child()/standalone()/text and through its rendering; plus {} random sequences of 5..40 ops over names a-d at depth <= 4. Non-trivial/distinct: distinct final model states.",
         k, max_len, total, max_len, k, n_random
     );
     (rep, rule)
